@@ -30,6 +30,7 @@ def corpus(tier, seed):
         ins_spec("uprior2", s + 11, 100, max_iteration=4, draw_iid_live=False, kills=[350]),
         # prior that is -inf inside the unit hypercube (disc in a box): drawn candidates are rejected by the prior
         ins_spec("disc2", s + 12, 100, max_iteration=4),
+        ins_spec("rect3", s + 14, 100, max_iteration=4, kills=[400]),
         ins_spec("disc2", s + 13, 100, max_iteration=4, draw_iid_live=False, kills=[350]),
     ]
     if tier == "thorough":
